@@ -240,3 +240,25 @@ contract(OT + 'register:RegisterOperand.parse_operand', name='register-operand-p
          returns='ParsedOperand?', may_raise={'SystemExit': 'True', 'KeyError': 'True'},
          ensures=['implies(result is not None, result._argument is None)', CODE_OK, NO_CODE, HAS_CODE],
          modifies=[], allocates=True, no_frame_check=True)
+
+
+# ---- indirect register operands: code field as for a register, the offset field exactly as configured ------------------
+declare_fields('IndirectRegisterOperand', _parse_pattern='opaque')
+@spec
+def offset_endian(o):
+    """the offset's own endian, else the default the operand was created with"""
+    if 'endian' in o._config['offset']:
+        return cfg_str(o._config['offset']['endian'])
+    return o._default_endian
+
+
+OFFSET_OK = ('implies(result is not None and "offset" in self._config, result._argument is not None'
+             ' and value_of(result._argument)._value_size == cfg_int(self._config["offset"]["size"])'
+             ' and value_of(result._argument)._byte_align == cfg_bool(self._config["offset"]["byte_align"])'
+             ' and value_of(result._argument)._endian == offset_endian(self))')
+NO_OFFSET = 'implies(result is not None and not ("offset" in self._config), result._argument is None)'
+contract(OT + 'indirect_register:IndirectRegisterOperand.parse_operand', name='indirect-register-operand-parts',
+         props=['C01'], returns='ParsedOperand?',
+         may_raise={'SystemExit': 'True', 'KeyError': 'True', 'SyntaxError': 'True', 'AttributeError': 'True'},
+         ensures=[OFFSET_OK, NO_OFFSET, CODE_OK, NO_CODE, HAS_CODE],
+         modifies=[], allocates=True, no_frame_check=True)
